@@ -571,8 +571,42 @@ def loop_env(lp: Optional[ast.AST]) -> Dict[str, ast.expr]:
                 r = r.value
             if isinstance(r, ast.Name):
                 mutated.add(r.id)
-    return {k: v for k, v in env.items() if cnt[k] == 1 and k not in mutated
-            and not any(isinstance(x, ast.Call) and not _pure_call(x) for x in ast.walk(v))}
+    out = {k: v for k, v in env.items() if cnt[k] == 1 and k not in mutated
+           and not any(isinstance(x, ast.Call) and not _pure_call(x) for x in ast.walk(v))}
+    # operand stability inside the iteration: `failures = [r for r in results if ..]` does not stand for its defining expression after
+    # `results = executor.run_one_tick(..)` has re-bound the operand (the definition runs again only in the next iteration)
+    binds: Dict[str, List[ast.AST]] = {}
+    defs: Dict[str, ast.AST] = {}
+    for n in ast.walk(lp):
+        tg = []
+        if isinstance(n, ast.Assign):
+            tg = n.targets
+            if len(n.targets) == 1 and isinstance(n.targets[0], ast.Name):
+                defs[n.targets[0].id] = n
+        elif isinstance(n, (ast.AugAssign, ast.AnnAssign)):
+            tg = [n.target]
+        elif isinstance(n, (ast.For, ast.AsyncFor)) and n is not lp:
+            tg = [n.target]
+        for t in tg:
+            for x in ast.walk(t):
+                if isinstance(x, ast.Name) and isinstance(x.ctx, ast.Store):
+                    binds.setdefault(x.id, []).append(n)
+    for k in list(out):
+        d = defs.get(k)
+        ops = {x.id for x in ast.walk(out[k]) if isinstance(x, ast.Name)} & set(binds)
+        uses = [x for x in ast.walk(lp) if isinstance(x, ast.Name) and x.id == k and isinstance(x.ctx, ast.Load)]
+        bad = False
+        for v in ops:
+            for r in binds[v]:
+                if r is d or getattr(r, "lineno", 0) <= getattr(d, "lineno", 0):
+                    continue      # before the definition in the iteration: the definition sees the new value
+                if isinstance(r, (ast.For, ast.AsyncFor)) and any(x is d for x in ast.walk(r)):
+                    continue      # loop variable of an inner loop around the definition
+                if any(getattr(u, "lineno", 0) > getattr(r, "lineno", 0) for u in uses):
+                    bad = True
+        if bad:
+            del out[k]
+    return out
 
 
 # -- helper inlining ("extract method" robustness) ------------------------------------------------------------
